@@ -1427,6 +1427,7 @@ pub fn run(a: &Args) {
     let nb = (a.n * 2).max(40);
     rt.block_on(part_b(&mut out, &mut rng, nb));
     rt.block_on(crate::c06msg::part_m(&mut out, &mut rng, (a.n / 4).max(60)));
+    crate::c06sim::part_s(&mut out, &mut rng, ((a.n / 8).max(40)) as usize);
     out.extra.insert("audit".into(), crate::c06msg::audit());
     out.finish("case (part A) = one cluster history: 2..4 real ShardReplicaStates, 4..40 events (local SET[PX]/DEL/HSET/HDEL (1..6 fields, repetitions) on 3 colliding keys, a third of the local ops followed by write-after-receive (the delta reaches another node, which at once writes one of the touched registers); deliveries of arbitrary earlier deltas to arbitrary nodes incl. duplicates), then usually delivery of everything missing in random order; per key the flags delivered/compat/agree/agreeexp are compared with the model; non-trivial iff some key has ≥ 2 deltas and is fully delivered. Case (part B) = one history on 2..3 real ReplicatedShardActors: 2..10 client commands (SET with NX/XX/GET/EX/PX/KEEPTTL/EXAT/PXAT, GETSET, INCR/DECR/INCRBY/DECRBY, APPEND, DEL of 1..3 keys, HSET/HDEL/HINCRBY, on keys shared between string and hash commands; one third of the histories also MSET/SETNX/GETDEL/EXPIRE/PERSIST/RENAME/RPUSH/MSETNX/FLUSHALL) interleaved with deliveries of arbitrary earlier deltas, then usually delivery of everything missing in random order with duplicates; every step is compared with the Lean glue model (reply, served keyspace, delta / merged value, supported-fragment verdict), then GET/EXISTS/HGETALL/TTL on every node and the per-key flags delivered/kind/agree/reads; non-trivial iff ≥ 2 deltas and complete delivery; plus 23 fixed scenarios and a sweep of every Command variant a shard actor can receive (GA lines for commands outside the model). Distinct by history text");
 }
